@@ -206,7 +206,7 @@ class Sh:
     def run(self):
         r = self.rnd
         if self.desc["k"] in (0, 100): self.includes()
-        nP = 4 if self.desc["tier"] == "quick" else 40
+        nP = 4 if self.desc["tier"] == "quick" else 30
         perR = 22 if self.desc["tier"] == "quick" else 120
         for _ in range(nP):
             g = ml.Gen(r, "functions", nfuncs=r.randint(2, 3))
